@@ -174,6 +174,7 @@ CANARIES = {
         ("failed-write-keeps-file", "stix2/datastore/filesystem.py", "text", ["            os.remove(file_path)\n            raise\n", "            raise\n"], "C17.commit-last"),
         ("overflow-escapes-id-generation", "stix2/v21/base.py", "text", ["            except OverflowError:\n", "            except ZeroDivisionError:\n"], "C17.recursion-converted"),
         ("raw-value-rendered-unguarded", "stix2/utils.py", "text", ["            try:\n                shown = str(data)\n            except RecursionError:\n                shown = \"<%s nested too deeply to show>\" % type(data).__name__\n", "            shown = str(data)\n"], "C17.recursion-converted"),
+        ("store-reads-id-unguarded", "stix2/datastore/memory.py", "text", ['        if "id" not in stix_obj:\n', '        if False:\n'], "C17.raw-deref"),
     ],
     "C18": [
         ("own-filters-not-forwarded", "stix2/datastore/__init__.py", "delete-call-stmt", ["CompositeDataSource.query", "all_filters.add(self.filters)"], "C18.member-forward"),
